@@ -45,6 +45,8 @@ var (
 	ErrInt64UnderflowsUint64 = errors.New("int64 underflows uint64")
 	// ErrFloat64UnderflowsUint64 is returned if when converting an float6464 to a uint64 underflow uint64
 	ErrFloat64UnderflowsUint64 = errors.New("float64 underflows uint64")
+	// ErrInvalidFloat is returned if a float64 value is NaN or infinite
+	ErrInvalidFloat = errors.New("float64 value is not a finite number")
 	// ErrDivideByZero is returned if a coin amount is to be distributed over zero shares
 	ErrDivideByZero = errors.New("division by zero")
 )
@@ -196,8 +198,14 @@ func Int64ToCoin(a int64) (Coin, error) {
 
 // Float64ToCoin converts an float64 to a uint64 Coin, returning an error if the float64 value underflows uint64
 func Float64ToCoin(a float64) (Coin, error) {
+	if math.IsNaN(a) || math.IsInf(a, 0) {
+		return 0, ErrInvalidFloat
+	}
 	if a < 0 {
 		return 0, ErrFloat64UnderflowsUint64
+	}
+	if a >= math.MaxUint64 { // float64(math.MaxUint64) is 2^64: not representable
+		return 0, ErrTooLarge
 	}
 	return Coin(a), nil
 }
